@@ -32,6 +32,7 @@ for _f in sorted(glob.glob(os.path.join(os.path.dirname(os.path.abspath(__file__
 
 def generate(name, outdir):
     """(re)write outdir/<name>.v if its content changed; return (ok, message)."""
+    os.makedirs(outdir, exist_ok=True)
     path = os.path.join(outdir, name + '.v')
     entry = KERNELS[name]
     try:
